@@ -455,3 +455,32 @@ class Bag:
     vs: List[object] = field(default_factory=list, metadata={"type": "Element"})
     m: Dict[str, object] = field(default_factory=dict, metadata={"type": "Attributes"})
     fz: frozenset = field(default_factory=frozenset, metadata={"type": "Ignore"})
+
+
+@dataclass
+class Deep:
+    """Classes and an enum nested two levels deep; non-empty default factories (C18)."""
+
+    class Level(Enum):
+        LOW = 1
+        HIGH = 2
+
+    @dataclass
+    class Mid:
+        class Kind(Enum):
+            A = "a"
+            B = "b"
+
+        @dataclass
+        class Leaf:
+            n: int = field(default=0, metadata={"type": "Attribute"})
+
+        leaf: Optional["Deep.Mid.Leaf"] = field(default=None, metadata={"type": "Element"})
+        kind: Optional["Deep.Mid.Kind"] = field(default=None, metadata={"type": "Attribute"})
+
+    mid: Optional["Deep.Mid"] = field(default=None, metadata={"type": "Element"})
+    langs: List[str] = field(default_factory=lambda: ["en", "de"], metadata={"type": "Element"})
+    pair: Tuple[int, ...] = field(default_factory=lambda: (1, 2), metadata={"type": "Element"})
+    opts: Dict[str, str] = field(default_factory=lambda: {"k": "v"}, metadata={"type": "Attributes"})
+    level: Optional["Deep.Level"] = field(default_factory=lambda: Deep.Level.LOW, metadata={"type": "Attribute"})
+    text: Optional[str] = field(default="dflt", metadata={"type": "Element"})
